@@ -853,6 +853,355 @@ def c19(ck):
     ck.assumptions += ["both signedness settings are judged against the one byte-level specification (which never mentions char), "
                        "so equal verdicts on the same script mean equal API results"]
 
+
+# ----------------------------------------------------------------------------------------------- C09
+def structured_strings(rng, n):
+    """Strings around valid phrases: abbreviations, foreign words, separator and count defects, raw bytes."""
+    import unicodedata
+    out = []
+    while len(out) < n:
+        lid = rng.choice(LANG_IDS)
+        L = codec.lang(lid)
+        idx = rand_idx(rng, features=rng.choice([0, 0, 16, 8, 1]))
+        toks = [L["wcb"][i] if rng.chance(1, 2) else L["wb"][i] for i in idx]
+        kind = rng.below(14)
+        sep = b" "
+        if kind == 0:
+            pass
+        elif kind == 1 and L["prefix"]:
+            toks = [t if len(t) <= 4 else bytes(b for b in L["wb"][i] if b < 128)[:4 + rng.below(3)] for t, i in zip(toks, idx)]
+        elif kind == 2:        # one token from another language
+            other = codec.lang(rng.choice(LANG_IDS))
+            toks[rng.below(16)] = other["wb"][rng.below(2048)]
+        elif kind == 3:        # all tokens shared between the Chinese lists
+            lid2 = rng.choice(["zh_s", "zh_t"])
+            toks = [codec.lang(lid2)["wb"][i] for i in ambiguous_idx(rng, lid2)]
+            if rng.chance(1, 2):
+                toks[rng.below(16)] = codec.lang(lid2)["wb"][rng.choice(shared_zh(lid2))]       # checksum now wrong
+        elif kind == 4:        # Latin cross-language prefixes (several lists accept every token)
+            pools = [codec.lang(x) for x in ("en", "es", "fr", "it", "pt", "cs")]
+            toks = []
+            for _ in range(16):
+                P = rng.choice(pools)
+                toks.append(bytes(b for b in P["wb"][rng.below(2048)] if b < 128)[:4])
+        elif kind == 5:
+            toks = toks[:15]
+        elif kind == 6:
+            toks = toks + [toks[0]]
+        elif kind == 7:
+            sep = rng.choice([b"  ", b"\t", "　".encode(), b" \n", b","])
+        elif kind == 8:
+            toks[rng.below(16)] = b""
+        elif kind == 9:
+            toks = [b""] + toks if rng.chance(1, 2) else toks
+            s = sep.join(toks) + rng.choice([b" ", b"  ", b" x", "　".encode()])
+            out.append(s)
+            continue
+        elif kind == 10:
+            out.append(rng.bytes(rng.below(200)).replace(b"\x00", b"\x01"))
+            continue
+        elif kind == 11:
+            p = rng.below(16)
+            toks[p] = toks[p] + rng.choice([b"x", b"\xcc\x81", b"\xff", "ñ".encode()])
+        elif kind == 12:
+            i, j = rng.below(16), rng.below(16)
+            toks[i], toks[j] = toks[j], toks[i]
+        elif kind == 13:
+            toks = [rng.choice([b"xxx", b"abandon", "的".encode(), b"a"]) for _ in range(rng.choice([0, 1, 16, 17, 40]))]
+        out.append(sep.join(toks))
+    return out
+
+
+def c09(ck):
+    rng = Rng(ck.seed)
+    quick = ck.tier == "quick"
+    ck.model("TheoremsSplit.tla", "TheoremsSplit_quick.cfg" if quick else "TheoremsSplit_thorough.cfg")
+    strs = structured_strings(rng, 500 if quick else 12000)
+    strs += [codec.phrase("es", codec.words_of(bytes(19), 0, 0)), b"impo sort usua cabi venu nobl oliv clim cont barr marc auto prod vaca torn fati"]
+    for n, grp in enumerate(chunked(strs, 12)):
+        s = Script()
+        s.add("enable", rng.choice([0, 7]))
+        for st in grp:
+            if len(st) > 60000 or b"\x00" in st:
+                continue
+            r = s.string(st)
+            coin = rng.choice([0, 0, 1, 2047])
+            s.add("decode", r, coin, 1, "nolang" if rng.chance(1, 8) else "")
+            s.add("free", 1)
+            for lid in LANG_IDS:
+                s.add("decodex", r, coin, lid, 1)
+                s.add("free", 1)
+            if rng.chance(1, 4):
+                s.add("env", "fail=1")
+                s.add("decode", r, coin, 1)
+                s.add("env", "fail=0")
+        ck.add(Exec("strings-%d" % n, s.lines))
+    ck.validate()
+    ck.assumptions += ["the relation between automatic and explicit decoding is a TLC-checked theorem of the specification "
+                       "(TheoremsSplit); each of the eleven calls per string is judged against it separately"]
+
+
+# ----------------------------------------------------------------------------------------------- C13 / C15 walks
+def random_walk(rng, length, faults=False, inject=True, name="walk"):
+    """Model-guided random walk over the whole API with up to six live seeds."""
+    s = Script()
+    H = 6
+    have_str, have_buf = [], []
+    pws = [b"pw", b"", "pässwörd".encode(), codec.nfd("pässwörd".encode()), b"correct horse battery staple"]
+    live = []          # registers that (probably) hold a seed
+    cur_mask = [rng.choice([7, 7, 5, 0])]
+    s.add("enable", cur_mask[0])
+
+    def pick():
+        return rng.choice(live) if live and rng.chance(9, 10) else rng.below(H)
+
+    def target():
+        free = [x for x in range(H) if x not in live]
+        t = rng.choice(free) if free else rng.below(H)
+        if t not in live:
+            live.append(t)
+        return t
+
+    for step in range(length):
+        k = rng.below(100)
+        if faults and rng.chance(1, 3):
+            s.add("env", "fail=%d" % rng.choice([0, 1, 1, 3]))
+        if not live:
+            k = 0
+        h = pick()
+        if k < 12:
+            h = target()
+            s.add("env", "rand=" + hx(rng.bytes(19)), "time=%d" % rng.choice([EPOCH + rng.below(1100) * STEP + rng.below(STEP), rng.u64(), 0, EPOCH - 1, 2 ** 64 - 1]))
+            s.add("create", h, (rng.below(8) & cur_mask[0]) if rng.chance(3, 4) else rng.choice([rng.below(16), rng.u64() & 0xFFFFFFFF]))
+        elif k < 24:
+            r = s.sreg()
+            s.add("encode", h, rng.choice(LANG_IDS), rng.choice(COINS_BOUNDARY + [rng.below(2048)]), r)
+            have_str.append(r)
+        elif k < 36 and have_str:
+            s.add("decode", rng.choice(have_str), rng.choice([0, 0, 1, 2047, rng.below(2048)]), target())
+        elif k < 46 and have_str:
+            s.add("decodex", rng.choice(have_str), rng.choice([0, 0, 1, 2047]), rng.choice(LANG_IDS), target())
+        elif k < 54:
+            b = s.breg()
+            s.add("store", h, b)
+            have_buf.append(b)
+        elif k < 62 and have_buf:
+            s.add("load", rng.choice(have_buf), target())
+        elif k < 70:
+            s.add("env", "mask=" + hx(biased_mask(rng, rng.below(12))))
+            s.add("crypt", h, s.string(rng.choice(pws)))
+        elif k < 76:
+            s.add("keygen", h, rng.choice(COINS_BOUNDARY), rng.choice(KEY_SIZES))
+        elif k < 82:
+            s.add(rng.choice(["bday %d", "isenc %d", "feat %d 7", "feat %d 4294967295"]) % h)
+        elif k < 88:
+            s.add("free", h if rng.chance(9, 10) else -1)
+            if h in live and len(live) > 1:
+                live.remove(h)
+        elif k < 95:
+            cur_mask[0] = rng.choice([0, 1, 5, 7, 7, 13, 0xFFFFFFFA])
+            s.add("enable", cur_mask[0])
+            cur_mask[0] &= 7
+        elif k < 98 and inject:
+            s.add("inject", "".join(rng.choice("ABC") for _ in range(5)) + "".join(rng.choice("ABCN") for _ in range(3)))
+        else:
+            # inputs the library cannot produce itself: reserved features, damaged phrases and images
+            f = rng.choice([8, 9, 24, 31, 2])
+            idx = rand_idx(rng, features=f)
+            have_str.append(s.string(codec.phrase(rng.choice(LANG_IDS), idx)))
+            img = bytearray(codec.image(rand_secret(rng), rng.below(1024), f))
+            if rng.chance(1, 2):
+                img[rng.below(32)] ^= 1 << rng.below(8)
+            have_buf.append(s.buf(img))
+    return Exec(name, s.lines)
+
+
+def hist_to_script(hist):
+    """A behaviour of PolyseedMC (Begin / dependency / Ret records) as a driver script: the caller's
+    choices become operations, the environment's choices become the env schedule."""
+    lines = []
+    i = 0
+    while i < len(hist):
+        ev = hist[i]
+        assert ev["e"] == "Begin"
+        j = i + 1
+        deps = []
+        while hist[j]["e"] != "Ret":
+            deps.append(hist[j])
+            j += 1
+        ret = hist[j]
+        op, a = ev["op"], ev["a"]
+        envs = []
+        allocs = [d for d in deps if d["e"] == "Alloc"]
+        envs.append("fail=%d" % sum(1 << n for n, d in enumerate(allocs) if d["blk"] == 0))
+        for d in deps:
+            if d["e"] == "Rand":
+                envs.append("rand=" + hx(bytes(d["out"])))
+            elif d["e"] == "Time":
+                v = d["val"]
+                envs.append("time=%d" % (v[0] + (v[1] << 16) + (v[2] << 32) + (v[3] << 48)))
+            elif d["e"] == "Kdf":
+                envs.append("mask=" + hx(bytes(d["out"])))
+        lines.append("env " + " ".join(envs))
+        tgt = ret.get("h", 0) or 99
+        if op == "Inject":
+            lines.append("inject " + "".join(a["set"]))
+        elif op == "Enable":
+            lines.append("enable %d" % a["lo"])
+        elif op == "Create":
+            lines.append("create %d %d" % (tgt, a["lo"]))
+        elif op in ("Decode", "DecodeX"):
+            p = a["str"]
+            sd = p["seed"]
+            idx = codec.words_of(bytes(sd["secret"]), sd["birthday"], sd["features"], p["coin"])
+            lid = LANG_IDS[p["lang"] - 1]
+            if p["defect"] == "check":
+                idx[4] ^= 1
+            if p["defect"] == "ambig":
+                # every token accepted by English AND by the explicitly selectable languages of the model
+                text = b"impo sort usua cabi venu nobl oliv clim cont barr marc auto prod vaca torn fati"
+            else:
+                toks = [codec.lang(lid)["wcb"][k] for k in idx]
+                if p["defect"] == "count":
+                    toks = toks[:15]
+                if p["defect"] == "word":
+                    toks[7] = b"xqzxqz"
+                text = b" ".join(toks)
+            lines.append("str 1 " + hx(text))
+            if op == "Decode":
+                lines.append("decode 1 %d %d" % (a["coin"], tgt))
+            else:
+                lines.append("decodex 1 %d %s %d" % (a["coin"], LANG_IDS[a["lang"] - 1], tgt))
+        elif op == "Load":
+            lines.append("buf 1 " + hx(bytes(a["buf"])))
+            lines.append("load 1 %d" % tgt)
+        elif op == "Free":
+            lines.append("free %d" % (a["h"] if a["h"] else -1))
+        elif op == "Crypt":
+            lines.append("str 2 " + hx(bytes(a["pw"])))
+            lines.append("crypt %d 2" % a["h"])
+        elif op == "Keygen":
+            lines.append("keygen %d %d %d" % (a["h"], a["coin"], a["size"]))
+        elif op == "Store":
+            lines.append("store %d 3" % a["h"])
+        elif op == "Feature":
+            lines.append("feat %d %d" % (a["h"], a["lo"]))
+        i = j + 1
+    return lines
+
+
+def mc_behaviours(ck, cfg, limit):
+    """Behaviours of the bounded model, printed by TLC as JSON histories."""
+    import json
+    import re
+    res = ck.model("PolyseedMC.tla", cfg, heap="16g", timeout=3000)
+    out = []
+    for m in re.finditer(r'<<\s*"HIST",\s*"((?:[^"\\]|\\.)*)"\s*>>', res["out"], re.S):
+        try:
+            out.append(json.loads(json.loads('"' + re.sub(r"\s*\n\s*", "", m.group(1)) + '"')))
+        except ValueError:
+            ck.notes.append("unparsable behaviour skipped")
+    if len(out) > limit:
+        step = len(out) // limit
+        out = out[::step][:limit]
+    return out
+
+
+def c13(ck):
+    rng = Rng(ck.seed)
+    quick = ck.tier == "quick"
+    # contract |= property, all behaviours within the bound
+    ck.model("PolyseedMC.tla", "PolyseedMC_quick.cfg" if quick else "PolyseedMC_thorough.cfg", heap="16g", timeout=3400)
+    # spec -> code: behaviours of the model replayed through the library
+    beh = mc_behaviours(ck, "PolyseedMC_replay.cfg" if quick else "PolyseedMC_replayfull.cfg", 400 if quick else 100000)
+    ck.extra["model_behaviours_replayed"] = len(beh)
+    for n, grp in enumerate(chunked(beh, 8)):
+        for m, h in enumerate(grp):
+            ck.add(Exec("replay-%d-%d" % (n, m), hist_to_script(h)))
+    # code -> spec: random walks
+    for n in range(60 if quick else 1500):
+        ck.add(random_walk(rng, 60 if quick else 120, faults=(n % 3 == 0), name="walk-%d" % n))
+    for n in range(6 if quick else 60):
+        ex = random_walk(rng, 60, faults=True, name="walk-dbg-%d" % n)
+        ex.variant = "dbg"
+        ck.add(ex)
+    ck.validate()
+    ck.assumptions += ["exhaustive for all behaviours of the bounded model (pools and bounds in spec/PolyseedMC*.cfg); random walks beyond it"]
+
+
+def c15(ck):
+    rng = Rng(ck.seed)
+    quick = ck.tier == "quick"
+    ck.level = "fault_enumeration"
+    ck.model("PolyseedMC.tla", "PolyseedMC_quick.cfg", heap="16g", timeout=3400)
+    beh = mc_behaviours(ck, "PolyseedMC_replay.cfg" if quick else "PolyseedMC_replayfull.cfg", 400 if quick else 100000)
+    nfail = 0
+    for n, h in enumerate(beh):
+        if any(e["e"] == "Alloc" and e["blk"] == 0 for e in h) or n % 4 == 0:
+            ck.add(Exec("replay-%d" % n, hist_to_script(h)))
+            nfail += 1
+    ck.extra["model_behaviours_replayed"] = nfail
+    # every operation x outcome class x {request succeeds, request fails}, also with libc malloc/free
+    for rep in range(2 if quick else 20):
+        for ex in exit_path_scripts(rng, "paths-r%d" % rep):
+            ck.add(ex)
+        for ex in exit_path_scripts(rng, "libc-r%d" % rep):
+            ex.lines = ["inject AAAAA" + rng.choice(["ANN", "NNN", "AAN", "ANA"])] + ex.lines
+            ck.add(ex)
+    for n in range(30 if quick else 600):
+        ck.add(random_walk(rng, 60, faults=True, name="faultwalk-%d" % n))
+    for n in range(4 if quick else 40):
+        ex = random_walk(rng, 60, faults=True, name="faultwalk-san-%d" % n)
+        ex.variant = "san"
+        ck.add(ex)
+    ck.validate()
+    ck.rule = ("evaluations = API calls recorded and judged; every constructor is run on every outcome class with the allocation "
+               "request succeeding and failing (failure schedule = which requests of the call fail), model behaviours with every "
+               "NULL choice are replayed, walks run under random schedules; distinct_nontrivial = distinct (operation, arguments) by hash")
+
+
+# ----------------------------------------------------------------------------------------------- C18
+def c18(ck):
+    rng = Rng(ck.seed)
+    quick = ck.tier == "quick"
+    ck.model("PolyseedMC.tla", "PolyseedMC_quick.cfg", heap="16g", timeout=3400)
+    # random-source outputs: every unit bit of the 19 bytes (including the two that must be dropped)
+    outs = []
+    for k in range(152):
+        b = bytearray(19)
+        b[k // 8] = 1 << (7 - k % 8)
+        outs.append(bytes(b))
+    outs += [bytes([255] * 19), bytes(19)] + [rng.bytes(19) for _ in range(20 if quick else 500)]
+    for n, grp in enumerate(chunked(outs, 40)):
+        s = Script()
+        for o in grp:
+            s.add("env", "rand=" + hx(o), "time=%d" % (EPOCH + rng.below(1024) * STEP))
+            s.add("create", 1, 0)
+            s.add("store", 1, 1)
+            s.add("free", 1)
+        ck.add(Exec("rand-%d" % n, s.lines))
+    # injection sequences; the caller's struct is overwritten right after polyseed_inject returns
+    for n in range(40 if quick else 600):
+        s = Script()
+        for k in range(1 + rng.below(4)):
+            st = "".join(rng.choice("ABC") for _ in range(5)) + "".join(rng.choice("ABCNN") for _ in range(3))
+            s.add("inject", st)
+            s.add("env", "rand=" + hx(rng.bytes(19)), "time=%d" % (EPOCH + rng.below(900) * STEP), "libctime=%d" % (EPOCH + rng.below(900) * STEP),
+                  "mask=" + hx(rng.bytes(32)))
+            s.add("create", 1, 0)
+            lid = rng.choice(LANG_IDS)
+            s.add("encode", 1, lid, 0, 1)
+            s.add("decode", 1, 0, 2)
+            s.add("crypt", 2, s.string("pässwörd".encode()))
+            s.add("keygen", 2, 1, 32)
+            s.add("store", 2, 1)
+            s.add("load", 1, 3)
+            s.add("free", 1)
+            s.add("free", 2)
+            s.add("free", 3)
+        ck.add(Exec("inject-%d" % n, s.lines))
+    ck.validate()
+
 # ----------------------------------------------------------------------------------------------- C16
 def exit_path_scripts(rng, tag):
     """One execution per API function and exit path (success and every error status)."""
@@ -968,4 +1317,4 @@ def c16(ck):
     ck.extra["builds"] = variants
 
 
-CHECKS = {"C01": c01, "C02": c02, "C03": c03, "C04": c04, "C05": c05, "C06": c06, "C07": c07, "C08": c08, "C10": c10, "C11": c11, "C12": c12, "C16": c16, "C17": c17, "C19": c19}
+CHECKS = {"C01": c01, "C02": c02, "C03": c03, "C04": c04, "C05": c05, "C06": c06, "C07": c07, "C08": c08, "C10": c10, "C11": c11, "C12": c12, "C16": c16, "C09": c09, "C13": c13, "C15": c15, "C17": c17, "C18": c18, "C19": c19}
